@@ -64,17 +64,26 @@ type caller struct {
 type queue struct {
 	mu      sync.Mutex
 	callers []*caller
+	// dead is set (under mu) by the remove() that empties the queue, right before the queue is
+	// dropped from lock.queues. A caller that still holds a pointer to a dead queue must not
+	// enqueue on it: it fetches the key's current queue again (see Lock).
+	dead bool
+	// drop removes this queue from lock.queues if it still is the key's queue.
+	drop func(q *queue)
 }
 
-func newQueue() *queue {
-	return &queue{}
+func newQueue(drop func(q *queue)) *queue {
+	return &queue{drop: drop}
 }
 
 // enqueue appends a new caller. If it lands at the head (queue was empty),
 // its ready channel is pre-closed so it can proceed immediately.
-func (q *queue) enqueue(c *caller) {
+func (q *queue) enqueue(c *caller) bool {
 	q.mu.Lock()
 	defer q.mu.Unlock()
+	if q.dead {
+		return false
+	}
 	wasEmpty := len(q.callers) == 0
 	q.callers = append(q.callers, c)
 	if wasEmpty {
@@ -83,6 +92,7 @@ func (q *queue) enqueue(c *caller) {
 	if verifhook.Enabled {
 		verifhook.Point("lock.enq", q, c.id, wasEmpty)
 	}
+	return true
 }
 
 // remove deletes the caller with the given id from the queue. If the removed
@@ -105,6 +115,12 @@ func (q *queue) remove(id string) bool {
 			// Wake the next waiter.
 			close(q.callers[0].ready)
 		}
+		if len(q.callers) == 0 {
+			// Nobody holds or waits for this key any more: retire the queue so that the map does
+			// not keep one entry per key ever locked.
+			q.dead = true
+			q.drop(q)
+		}
 		if verifhook.Enabled {
 			verifhook.Point("lock.rm", q, id, true)
 		}
@@ -120,7 +136,7 @@ func (l *lock) getQueue(key string) *queue {
 	if v, ok := l.queues.Load(key); ok {
 		return v.(*queue)
 	}
-	actual, _ := l.queues.LoadOrStore(key, newQueue())
+	actual, _ := l.queues.LoadOrStore(key, newQueue(func(q *queue) { l.queues.CompareAndDelete(key, q) }))
 	return actual.(*queue)
 }
 
@@ -137,7 +153,10 @@ func (l *lock) Lock(ctx context.Context, key string, ttl time.Duration) (lockID 
 	if verifhook.Enabled {
 		verifhook.Point("lock.gotq", q, lockID)
 	}
-	q.enqueue(c)
+	for !q.enqueue(c) {
+		// the queue was retired between getQueue and enqueue: take the key's current one
+		q = l.getQueue(key)
+	}
 
 	if verifhook.Enabled {
 		verifhook.Point("lock.select", q, lockID)
